@@ -93,11 +93,31 @@ def power(a, e):
 
 
 class Ranges:
-    def __init__(self, env=None, loops=None, resolver=None):
+    def __init__(self, env=None, loops=None, resolver=None, is_complex=None):
         self.env = env or {}          # atom -> Rng
         self.loops = loops or []
         self.resolver = resolver
+        self.is_complex = is_complex  # predicate: atom may hold complex numbers
         self._loop_memo = {}
+
+    def complex_valued(self, v):
+        """May the term be complex?  abs(.) and real(.)/imag(.) results are real."""
+        if self.is_complex is None or not isinstance(v, Poly):
+            return False
+        for m, _ in v.terms:
+            for a, _e in m:
+                if a == nf.I_ATOM or self.is_complex(a):
+                    return True
+                if a[0] == 'poly' and self.complex_valued(a[1]):
+                    return True
+                if a[0] == 'idx' and self.is_complex(a[1]):
+                    return True
+                if a[0] == 'app' and a[1] not in ('abs', 'real', 'imag', 'angle', 'sum') and \
+                        any(self.complex_valued(x) for x in a[2] if isinstance(x, Poly)):
+                    return True
+                if a[0] == 'app' and a[1] == 'sum' and any(self.complex_valued(x) for x in a[2] if isinstance(x, Poly)):
+                    return True
+        return False
 
     def of(self, v):
         if isinstance(v, Const):
@@ -105,6 +125,8 @@ class Ranges:
                 return const(int(v.value))
             return TOP
         if not isinstance(v, Poly):
+            return TOP
+        if self.complex_valued(v):
             return TOP
         total = None
         for m, c in v.terms:
@@ -172,6 +194,8 @@ class Ranges:
             return Rng(math.floor(r.lo) if not math.isinf(r.lo) else r.lo,
                        math.ceil(r.hi) if not math.isinf(r.hi) else r.hi, True,
                        r.values if r.integer and r.values is not None else None)
+        if name in ('real', 'imag') and args and isinstance(args[0], Poly) and self.complex_valued(args[0]):
+            return TOP
         if name in ('sum', 'amax', 'amin', 'copy', 'cast', 'T', 'm:ravel', 'm:reshape', 'squeeze', 'real',
                     'fft.fftshift', 'fft.ifftshift', 'm:astype', 'deepcopy', 'broadcast_to', 'm:copy', 'tile',
                     'repeat', 'kron'):
